@@ -60,11 +60,14 @@ def corpus (thorough : Bool) : List Case :=
     good 54 "[] rank (r: .@)", good 56 "<<1, 2, 3>> without (@: 3, @byte: 3)",
     good 57 "(2\\<<1, 2, 3>>) without (@: 5, @byte: 1)", good 58 "//seq.has_suffix([1, , , , 2], [1, 2, 3])",
     good 59 "//seq.trim_suffix([2, , , 3], [2, 3])", good 60 "let f = \\a 5; f(1, 2)?:0", good 61 "let d = {'a': 7}; d('a', 'c')?:0",
+    good 62 ("let f0 = \\x x.a; " ++ String.join ((List.range 30).map (fun j => s!"let f{j + 1} = \\x f{j}(x); ")) ++ "f30((b: 1))"),
     -- nesting: depth 3000 must still work (slowly); the crash witness is the open finding
     mkCase "C10-corpus-200" "corpus/depth-3000" "KF-deep-nesting" "survive" (nest "(" ")" 3000 "1"),
     mkCase "C10-corpus-201" "corpus/depth-100000" "KF-deep-nesting" "survive" (nest "(" ")" 100000 "1") ] ++
   (if thorough then
     [ mkCase "C10-corpus-202" "corpus/depth-3000" "KF-deep-nesting" "survive" (nest "[" "]" 3000 ""),
+      mkCase "C10-corpus-204" "corpus/depth-20-applied-fn" "KF-deep-nesting" "survive"
+        (String.join (List.replicate 20 "(\\x x)(") ++ "1" ++ String.join (List.replicate 20 ")")),
       mkCase "C10-corpus-203" "corpus/depth-400-let" "KF-deep-nesting" "survive"
         (String.join (List.replicate 400 "let x = ") ++ "1" ++ String.join (List.replicate 400 "; x")) ]
    else [])
@@ -117,7 +120,7 @@ def gen (seed n : Nat) (thorough : Bool) : List Case := Id.run do
   let og := if thorough then opGrid else slice 3 seed opGrid
   let lg := if thorough then libGrid seed else slice 3 seed (libGrid seed)
   -- the three small grids run in full on every run
-  let mut out := (callGrid.reverse ++ indexGrid.reverse ++ seqPairGrid.reverse ++ og.reverse ++ lg.reverse ++
+  let mut out := (errGrid.reverse ++ callGrid.reverse ++ indexGrid.reverse ++ seqPairGrid.reverse ++ og.reverse ++ lg.reverse ++
     (corpus thorough).reverse)
   for i in [0:n] do
     let (c, _) := (genCase i).run (seedOf seed (1000000 + i))
